@@ -1,25 +1,27 @@
 #!/usr/bin/env python3
-"""dev tool: verify contracts whose qualname contains a substring; prints obligations that are not discharged"""
-import sys, os
+"""dev tool: verify (in parallel) the contracts whose qualname contains a substring; prints what is not discharged"""
+import sys, os, time
 sys.path.insert(0, os.path.dirname(os.path.dirname(os.path.abspath(__file__))))
-from vf.qvc.source import SourceDB
+import concurrent.futures as cf, multiprocessing as mp
+from vf.qvc import driver
 from vf.qvc import contracts as C
 pat = sys.argv[1] if len(sys.argv) > 1 else ""
 verbose = "-v" in sys.argv
-db = SourceDB()
 reg = C.load_contracts()
+jobs = [(qn, i) for qn, c in reg.items() if pat in qn and not c.trusted for i in range(len(c.instances))]
+t0 = time.time()
+with cf.ProcessPoolExecutor(max_workers=min(16, max(1, len(jobs))), mp_context=mp.get_context("fork")) as ex:
+    results = list(ex.map(driver._work, jobs))
 bad = 0
-for qn, c in reg.items():
-    if pat not in qn or c.trusted:
-        continue
-    for i in range(len(c.instances)):
-        r = C.verify_instance(db, reg, c, i)
-        nd = sum(1 for o in r['obligations'] if o['status'] == 'discharged')
-        print("%-70s %-28s %s paths=%d obl=%d/%d %.2fs %s" % (qn.split(':')[1], str(c.instances[i])[:28], r['status'], r['paths'], nd, len(r['obligations']), r['wall_s'], r['unsupported'] or ''))
-        for o in r['obligations']:
-            if o['status'] != 'discharged' or verbose:
-                bad += o['status'] != 'discharged'
-                print('    ', o['status'], o['name'], o['time_s'], o.get('detail', ''), o.get('note', ''))
-                if o.get('model') and o['status'] != 'discharged':
-                    print('       model:', dict(list(o['model'].items())[:14]))
+for (qn, i), r in zip(jobs, results):
+    c = reg[qn]
+    nd = sum(1 for o in r['obligations'] if o['status'] == 'discharged')
+    print("%-70s %-28s %s paths=%d obl=%d/%d %.2fs %s" % (qn.split(':')[1], str(c.instances[i])[:28], "ok" if r['status'] == 'ok' else r['status'], r['paths'], nd, len(r['obligations']), r.get('wall_s', 0), (r['unsupported'] or '')[:300]))
+    for o in r['obligations']:
+        if o['status'] != 'discharged' or verbose:
+            bad += o['status'] != 'discharged'
+            print('    ', o['status'], o['name'], o['time_s'], o.get('backend'), o.get('detail', ''), o.get('note', ''))
+            if o.get('model') and o['status'] != 'discharged':
+                print('       model:', dict(list(o['model'].items())[:14]))
+print("total wall %.1fs" % (time.time() - t0))
 sys.exit(1 if bad else 0)
